@@ -1,6 +1,8 @@
 pub mod common;
 pub mod c01;
+pub mod c04;
 pub mod c07;
+pub mod c09;
 
 use crate::engine::{self, Property, Tier};
 use std::path::Path;
@@ -17,7 +19,9 @@ pub fn run<P: Property>(p: &P, tier: Tier, seed: u64, replay: Option<&str>) -> i
 pub fn dispatch(id: &str, tier: Tier, seed: u64, replay: Option<&str>) -> i32 {
     match id {
         "C01" => run(&c01::C01, tier, seed, replay),
+        "C04" => run(&c04::C04, tier, seed, replay),
         "C07" => run(&c07::C07, tier, seed, replay),
+        "C09" => run(&c09::C09, tier, seed, replay),
         _ => {
             eprintln!("unknown property id {}", id);
             2
